@@ -113,7 +113,7 @@ func runQuad(t *simrt.Tape, rc *RunCtx) *Violation {
 	rc.Instance["concurrent"] = q.conc
 	rc.Instance["rule"] = q.ruleName
 	rc.Instance["f"] = q.fName
-	rc.declare("concurrent>n", "concurrent==1", "evaluations_overlapped", "exact_arithmetic_instance", "worker_got_no_task")
+	rc.declare("concurrent>n", "concurrent==1", "evaluations_overlapped", "exact_arithmetic_instance")
 	const prop = "C09"
 	log := newCallLog(128 * scale)
 
